@@ -468,6 +468,12 @@ func runReplay(path string, verbose bool) int {
 		return 2
 	}
 	if strings.Join(log1, "\n") != strings.Join(log2, "\n") {
+		if rf.Clause == "deterministic-replay" {
+			if verbose {
+				fmt.Println("two replays of the same trace differ: the recorded nondeterminism is reproduced")
+			}
+			return 1
+		}
 		fmt.Fprintln(os.Stderr, "replay nondeterministic")
 		return 2
 	}
@@ -536,6 +542,14 @@ func replayOnce(rs *RunSpec, trace []string) (sigs []string, log []string, err e
 			return nil, nil, fmt.Errorf("step %d: action %q not enabled", i, name)
 		}
 		post, res := Exec(e.rig, e.Sc, s, *act)
+		if e.DetCheck {
+			post2, res2 := Exec(e.rig2, e.Sc, s, *act)
+			if post.StoreHash() != post2.StoreHash() || res.Outcome() != res2.Outcome() {
+				sg := viol("C20", "deterministic-replay", act.Kind, "two-keeper-instances-diverge", "").Sig
+				sigs = append(sigs, sg)
+				log = append(log, "    !! "+sg)
+			}
+		}
 		pv := e.rig.Decode(post)
 		pm := mon.Update(e.MonFlags, e.Sc, v, *act, res, pv)
 		post.Mon = pm.Bytes()
